@@ -244,7 +244,7 @@ func TestC10(t *testing.T) {
 	r := rand.New(rand.NewSource(seed()))
 	cases, failures := 0, 0
 	names := []string{"A", "B", "C", "d", "RT"}
-	vals := []string{"1", "$A", "${B}-x", "$RT", "$$A", "$C$A", "${d}", "lit"}
+	vals := []string{"1", "$A", "${B}-x", "$RT", "$$A", "$C$A", "${d}", "lit", "$a-lower", "${b}", "$rt", "${D}-upper", "$c$A"} // other letter cases: the caller's name equality decides
 	rounds := 300
 	if os.Getenv("VERIF_TIER") == "thorough" {
 		rounds = 5000
@@ -301,7 +301,7 @@ func TestC10(t *testing.T) {
 				for _, e := range block {
 					fmt.Fprintf(&sb, "  %s: %s\n", yamlStr(e.k), yamlStr(e.v))
 				}
-				sb.WriteString("steps:\n  - command: \"$A|$B|$C|$d|$RT\"\n")
+				sb.WriteString("steps:\n  - command: \"$A|$B|$C|$d|$RT|$a|$D\"\n")
 				p, err := pipeline.Parse(strings.NewReader(sb.String()))
 				if err != nil {
 					t.Fatal(err)
@@ -325,7 +325,7 @@ func TestC10(t *testing.T) {
 						t.Errorf("block %v prefer=%v fold=%v: caller env %v, want %v", block, prefer, fold, env.m, refEnv.m)
 					}
 				}
-				wantCmd, _ := interpolate.Interpolate(refEnv, "$A|$B|$C|$d|$RT")
+				wantCmd, _ := interpolate.Interpolate(refEnv, "$A|$B|$C|$d|$RT|$a|$D")
 				if c := p.Steps[0].(*pipeline.CommandStep).Command; c != wantCmd {
 					failures++
 					if failures < 5 {
